@@ -84,6 +84,23 @@ theorem loadOff_push (s : St H) (v : Val) (off : Int) (h : NotTopSlot s off) :
       intro e; apply h; rw [hi, e]
     simp [getAbs_push _ _ _ this]
 
+/-- sequencing: run the first part; continue with the second only if control falls through -/
+theorem run_append (P : Prims H) (xs ys : List Instr) (s : St H) :
+    run P (xs ++ ys) s = (run P xs s).bind fun (s', c) =>
+      match c with
+      | .next => run P ys s'
+      | .jump l => .ok (s', .jump l) := by
+  induction xs generalizing s with
+  | nil => simp
+  | cons i xs ih =>
+    simp only [List.cons_append, run_cons, Res.bind_assoc]
+    congr 1
+    funext x
+    obtain ⟨s', c⟩ := x
+    cases c with
+    | next => simp [ih]
+    | jump l => simp
+
 theorem loadOff_cases (s : St H) (off : Int) : (∃ v, loadOff s off = .ok v) ∨ loadOff s off = .fault := by
   unfold loadOff
   cases h1 : absIdx s.base off with
